@@ -142,6 +142,8 @@ inductive Out where
   | good (rem : Stream) (y : Obj)
   /-- the same bytes loaded through a stream that reports failures by exception ended differently -/
   | exmode (plain ex : Nat)
+  /-- loaded, but the object holds a non-finite value (duplicate triplets summed to inf): outside the quantifier -/
+  | nonfinite
 
 def pOut (kind : String) (sh : Shape) : P Out := do
   let t ← P.tok
@@ -152,6 +154,7 @@ def pOut (kind : String) (sh : Shape) : P Out := do
   | "T" => pure (.failed .threw false)
   | "g" => do let rem ← P.tok; let y ← pObj kind sh; pure (.good (tokenize (unhex rem)) y)
   | "X" => do let a ← P.nat; let b ← P.nat; pure (.exmode a b)
+  | "N" => pure .nonfinite
   | _ => P.fail
 
 def sigName : Sig → String
@@ -178,6 +181,7 @@ def illObj (sh : Shape) : Obj → Bool
 def judgeCore (v : Verdict) (comp : String) (m : R Obj) (sh : Shape) (o : Out) (what : String) (saved : Option Obj) : Verdict :=
   match o, m with
   | .exmode a b, _ => v.failIf true s!"{comp} exception_mode_outcome_differs {what} plain={a} exceptions={b}"
+  | .nonfinite, _ => { v with tag := if (v.tag.splitOn " ").contains "nonfinite_not_judged" then v.tag else v.tag ++ " nonfinite_not_judged" }
   | .failed sig same, .bad msig =>
       let v := v.failIf (!same) s!"{comp} dest_modified_on_failed_load {what} signal={sigName sig}"
       v.diffIf (sig != msig) s!"{comp} signal {what} model={sigName msig} impl={sigName sig}"
@@ -433,6 +437,7 @@ def seqStep (v : Verdict) (comp kind : String) (rd : Rd Obj) (sh : Shape) (st : 
   let next : Option (Option Stream) := match rd' s, o with
     | .bad .threw, _ => none
     | _, .failed .threw _ => none
+    | _, .nonfinite => none
     | .ok _ s', _ => some (some s')
     | .bad .failbit, _ => some none
   pure (v, next)
@@ -487,6 +492,26 @@ def rtbits : P String := do
   let v := v.failIf (sig == 0 && !restOk) s!"{comp} roundtrip_consumed_wrong_amount negative_zero"
   return v.render
 
+def fmtGo (site : String) : Nat → Verdict → P Verdict
+  | 0, v => pure v
+  | n + 1, v => do
+    let mode ← P.tok; let sig ← P.nat; let same ← P.bool; let restored ← P.bool
+    -- the property's clause on the implementation's own output: what was written must load back identical
+    let v := v.failIf (sig != 0 || !same) s!"{site} roundtrip_differs_stream_flags mode={mode} signal={sig}"
+    let v := v.failIf (!restored) s!"{site} writer_leaves_stream_flags_changed mode={mode}"
+    fmtGo site n v
+
+/-- `fmt kind S A O | n (mode sig bitsame flagsRestored)*n` : the object written to a stream whose formatting flags are
+    not the default ones, loaded from a fresh stream.  Component = the site that formats the numbers: the shared
+    `write(os, …)` family of src/Utils/IO.cpp (every kind but the POMDP policy), or the POMDP policy writer. -/
+def fmt : P String := do
+  let (kind, _) ← pHead; P.bar
+  let n ← P.nat
+  let site := if kind == "ppol" then "POMDP::Policy" else "Utils::write"
+  let v ← fmtGo site n { tag := "fmt " ++ kind }
+  P.eof
+  return v.render
+
 /-- `rtcopy S A | sig dump x | dump y` : load into a copy-constructed MDP::Policy (not modelled: the model has no aliasing) -/
 def rtcopy : P String := do
   let s ← P.nat; let a ← P.nat; P.bar
@@ -506,6 +531,7 @@ def handle (toks : List String) : String :=
   | "trim" :: r => (P.run trim r).getD "bad-op"
   | "bcorrupt" :: r => (P.run bcorrupt r).getD "bad-op"
   | "seq" :: r => (P.run seq r).getD "bad-op"
+  | "fmt" :: r => (P.run fmt r).getD "bad-op"
   | "rtbits" :: r => (P.run rtbits r).getD "bad-op"
   | _ => "bad-op"
 
